@@ -95,7 +95,7 @@ def gen_case(rng: random.Random, tier: str, bias: str = ''):
     ch = rng.choice(CHOOSERS)
     if bias == 'burst' and rng.random() < 0.7:
         ch = ('pctrel', rng.choice([6 * n, 12 * n]), ['lock.acquire'])
-    return dict(k=k, b=b, wait=wait, nst=nst, pre=pre, arr=arr, fail=fail, service=service,
+    return dict(k=k, b=b, wait=wait, nst=nst, pre=pre, pre_form=rng.choice(['method', 'method', 'attr']), arr=arr, fail=fail, service=service,
                 stop=rng.choice(['end', 'end', 'mid']), bias=bias, chooser=list(ch),
                 seed=rng.randrange(1 << 30))
 
@@ -272,6 +272,10 @@ def run_case(case):
         def __init__(self, **kw):
             super().__init__(**kw)
             self.num_stream_threads = nst
+            if case['pre'] and case.get('pre_form') == 'attr':
+                # the other documented form of the hook: an instance attribute holding a free-standing function,
+                # set after `super().__init__()`
+                self.preprocess = _pre_function
 
         # the two attributes `_start_batch` creates are wrapped at assignment
         @property
@@ -322,11 +326,14 @@ def run_case(case):
             ys = [('y', u, cid) for u in uids]
             return ys if is_list else ys[0]
 
-    if case['pre']:
+    def _pre_function(x):
+        if x[0] == 'bad':
+            raise PreErr(x[1])
+        return ('p', x[1])
+
+    if case['pre'] and case.get('pre_form') != 'attr':
         def preprocess(self, x):
-            if x[0] == 'bad':
-                raise PreErr(x[1])
-            return ('p', x[1])
+            return _pre_function(x)
         W.preprocess = preprocess
 
     def value(uid, kind):
@@ -549,6 +556,10 @@ def run_server_case(case):
         def __init__(self, **kw):
             super().__init__(**kw)
             self.num_stream_threads = nst
+            if case['pre'] and case.get('pre_form') == 'attr':
+                # the other documented form of the hook: an instance attribute holding a free-standing function,
+                # set after `super().__init__()`
+                self.preprocess = _pre_function
 
         def call(self, x):
             is_list = isinstance(x, list)
@@ -565,11 +576,14 @@ def run_server_case(case):
             ys = [('y', u, cid) for u in uids]
             return ys if is_list else ys[0]
 
-    if case['pre']:
+    def _pre_function(x):
+        if x[0] == 'bad':
+            raise PreErr(x[1])
+        return ('p', x[1])
+
+    if case['pre'] and case.get('pre_form') != 'attr':
         def preprocess(self, x):
-            if x[0] == 'bad':
-                raise PreErr(x[1])
-            return ('p', x[1])
+            return _pre_function(x)
         W.preprocess = preprocess
 
     def main():
